@@ -23,6 +23,7 @@ import ast
 import copy
 import json
 import os
+import re
 
 from .alpha import binding_order, functions
 
@@ -227,6 +228,58 @@ def _fmt_build(style, template, args, like):
         right = args[0] if len(args) == 1 and not isinstance(args[0], ast.Tuple) else ast.Tuple(elts=list(args), ctx=ast.Load())
         return ast.copy_location(ast.BinOp(left=ast.Constant(value=out), op=ast.Mod(), right=right), like)
     return None
+
+
+_DIRECTIVE = re.compile(r'%(\([^)]*\))?[#0\- +]*(\*|\d+)?(\.(\*|\d+))?[hlL]?([diouxXeEfFgGcrsa%])')
+
+
+def _directives(fmt):
+    """[(start, end, conversion)] of the argument-consuming directives of a %-format, or None when it uses mapping keys / `*`"""
+    out = []
+    for m_ in _DIRECTIVE.finditer(fmt):
+        if m_.group(5) == '%':
+            continue
+        if m_.group(1) or m_.group(2) == '*' or m_.group(4) == '*':
+            return None
+        out.append((m_.start(), m_.end(), m_.group(0)))
+    return out
+
+
+def fold_nested_formats(tree, ref):
+    """`'%s/%s' % (d, '%08X.json' % crc)` -> `'%s/%08X.json' % (d, crc)`: a plain %s slot filled with the result of another literal
+    %-format (always a str) is that format spliced in, with its arguments taking the slot's place.  (The reference has no such nesting.)"""
+    total = 0
+
+    class F(ast.NodeTransformer):
+        def visit_BinOp(self, n):
+            nonlocal total
+            self.generic_visit(n)
+            if not (isinstance(n.op, ast.Mod) and isinstance(n.left, ast.Constant) and isinstance(n.left.value, str)):
+                return n
+            args = list(n.right.elts) if isinstance(n.right, ast.Tuple) else [n.right]
+            ds = _directives(n.left.value)
+            # (a single argument that is not a tuple display may still BE a tuple at run time: only displays and plain scalars-by-construction)
+            if ds is None or len(ds) != len(args) or (not isinstance(n.right, ast.Tuple) and not isinstance(n.right, ast.BinOp)):
+                return n
+            done = False
+            for k in range(len(args) - 1, -1, -1):
+                a_ = args[k]
+                if ds[k][2] == '%s' and isinstance(a_, ast.BinOp) and isinstance(a_.op, ast.Mod) and isinstance(a_.left, ast.Constant) and isinstance(a_.left.value, str):
+                    inner = list(a_.right.elts) if isinstance(a_.right, ast.Tuple) else [a_.right]
+                    di = _directives(a_.left.value)
+                    if di is None or len(di) != len(inner) or (not isinstance(a_.right, ast.Tuple) and not isinstance(a_.right, (ast.Name, ast.Attribute, ast.Constant, ast.Subscript))):
+                        continue
+                    fmt = n.left.value
+                    n.left = ast.copy_location(ast.Constant(value=fmt[:ds[k][0]] + a_.left.value + fmt[ds[k][1]:]), n.left)
+                    args[k:k + 1] = inner
+                    ds = _directives(n.left.value)
+                    total += 1
+                    done = True
+            if done:
+                n.right = ast.copy_location(ast.Tuple(elts=args, ctx=ast.Load()), n.right)
+            return n
+    F().visit(tree)
+    return total
 
 
 def restyle_formats(tree, ref):
@@ -679,6 +732,42 @@ def fold_decided_branches(tree, ref):
     return total
 
 
+def merge_common_tails(tree, ref, ref_locals):
+    """`if T: A..; TAIL else: B..; TAIL` -> `if T: A.. else: B..` followed by TAIL (what tail duplication by the helper inliner leaves
+    behind).  The suffix is the same statements, statement by statement, directly in both branches, so it runs after either branch
+    exactly when it ran inside it.  Only in functions the reference knows, and not for suffixes ending in return / raise (those are
+    how the reference itself writes alternatives)."""
+    total = 0
+    for q, fn in functions(tree):
+        if ref_locals is None or q not in ref_locals:
+            continue
+        for _ in range(6):
+            changed = False
+            for block in _blocks(fn):
+                for i, st in enumerate(block):
+                    if not (isinstance(st, ast.If) and st.body and st.orelse):
+                        continue
+                    k = 0
+                    while k < len(st.body) and k < len(st.orelse) and ast.dump(st.body[-1 - k]) == ast.dump(st.orelse[-1 - k]):
+                        k += 1
+                    if not k:
+                        continue
+                    tail = st.body[len(st.body) - k:]
+                    if isinstance(tail[-1], (ast.Return, ast.Raise, ast.Break, ast.Continue)) or any(isinstance(x, ast.Pass) for x in tail):
+                        continue
+                    st.body = st.body[:len(st.body) - k] or [ast.copy_location(ast.Pass(), st)]
+                    st.orelse = st.orelse[:len(st.orelse) - k]
+                    block[i + 1:i + 1] = tail
+                    total += 1
+                    changed = True
+                    break
+                if changed:
+                    break
+            if not changed:
+                break
+    return total
+
+
 def drop_trivia(tree, ref):
     """`else: pass`, a `pass` next to other statements, and a final `return None` the reference function does not end with: spelled-out
     versions of what happens anyway"""
@@ -691,6 +780,12 @@ def drop_trivia(tree, ref):
                 if isinstance(b, list) and b and all(isinstance(x, ast.Pass) for x in b) and not (isinstance(node, (ast.For, ast.While)) and False):
                     setattr(node, f_, [])
                     total += 1
+        # `if T: pass else: B` (what is left of an inlined `if T: return`)  ->  `if not T: B`
+        for node in (_own_walk(fn) if 'passifs' in ref and not ref['passifs'].get(q) else ()):
+            if isinstance(node, ast.If) and node.orelse and all(isinstance(x, ast.Pass) for x in node.body):
+                node.test = _negate_lengths(node.test)
+                node.body, node.orelse = node.orelse, []
+                total += 1
         for block in _blocks(fn):
             if len(block) > 1 and any(isinstance(x, ast.Pass) for x in block):
                 keep = [x for x in block if not isinstance(x, ast.Pass)]
@@ -1596,7 +1691,7 @@ def scalarise_records(tree, ref):
     known = set(ref.get('classes', []))
     recs = {}
     for st in tree.body:
-        if not isinstance(st, ast.ClassDef) or st.name in known or st.bases and any(_txt(b) not in ('object',) for b in st.bases):
+        if not isinstance(st, ast.ClassDef) or st.bases and any(_txt(b) not in ('object',) for b in st.bases):
             continue
         fns = [x for x in st.body if isinstance(x, ast.FunctionDef)]
         if len(fns) != 1 or fns[0].name != '__init__' or fns[0].args.vararg or fns[0].args.kwarg:
@@ -1618,6 +1713,17 @@ def scalarise_records(tree, ref):
                 ok = False
         if ok and fields:
             recs[st.name] = (init, fields)
+    # a named tuple (literal field list, no defaults) is such a record too
+    for st in tree.body:
+        if isinstance(st, ast.Assign) and len(st.targets) == 1 and isinstance(st.targets[0], ast.Name) and isinstance(st.value, ast.Call) and \
+                _txt(st.value.func) in ('namedtuple', 'collections.namedtuple') and len(st.value.args) == 2 and not st.value.keywords:
+            fa = st.value.args[1]
+            names_ = fa.value.replace(',', ' ').split() if isinstance(fa, ast.Constant) and isinstance(fa.value, str) else \
+                [e.value for e in fa.elts] if isinstance(fa, (ast.List, ast.Tuple)) and all(isinstance(e, ast.Constant) and isinstance(e.value, str) for e in fa.elts) else None
+            if names_ and all(x.isidentifier() for x in names_) and len(set(names_)) == len(names_) and \
+                    sum(1 for n in ast.walk(tree) if isinstance(n, ast.Name) and n.id == st.targets[0].id and isinstance(n.ctx, ast.Store)) == 1:
+                init = ast.parse('def __init__(self, %s):\n    pass' % ', '.join(names_)).body[0]
+                recs[st.targets[0].id] = (init, [(x, ast.Name(id=x, ctx=ast.Load())) for x in names_])
     if not recs:
         return 0
     total = 0
@@ -1628,6 +1734,8 @@ def scalarise_records(tree, ref):
                 if not (isinstance(st, ast.Assign) and len(st.targets) == 1 and isinstance(st.targets[0], ast.Name) and isinstance(st.value, ast.Call) and
                         isinstance(st.value.func, ast.Name) and st.value.func.id in recs and stores.get(st.targets[0].id) == 1):
                     continue
+                if st.value.func.id in known and (q not in ref.get('calls', {}) or st.value.func.id in ref['calls'][q]):
+                    continue        # a record class of the reference: only where the reference function does not build one itself
                 v = st.targets[0].id
                 init, fields = recs[st.value.func.id]
                 # every other occurrence of v is  v.<field>
@@ -2676,6 +2784,8 @@ def shape_of(tree):
         'augs': {q: aug_forms(f) for q, f in functions(tree) if aug_forms(f)},
         'raises': {q: sorted({_txt(r.exc) for r in _fn_walk(f) if isinstance(r, ast.Raise) and r.exc is not None}) for q, f in functions(tree)
                    if any(isinstance(r, ast.Raise) and r.exc is not None for r in _fn_walk(f))},
+        'passifs': {q: sum(1 for n in _fn_walk(f) if isinstance(n, ast.If) and n.orelse and all(isinstance(x, ast.Pass) for x in n.body)) for q, f in functions(tree)
+                    if any(isinstance(n, ast.If) and n.orelse and all(isinstance(x, ast.Pass) for x in n.body) for n in _fn_walk(f))},
         'continues': {q: sum(1 for n in _fn_walk(f) if isinstance(n, ast.Continue)) for q, f in functions(tree) if any(isinstance(n, ast.Continue) for n in _fn_walk(f))},
         'lentests': {q: len_test_texts(f) for q, f in functions(tree) if len_test_texts(f)},
         'listtargets': {q: sorted({_txt(t) for a in _fn_walk(f) if isinstance(a, ast.Assign) for t in a.targets if isinstance(t, ast.List)}) for q, f in functions(tree)
@@ -3392,6 +3502,15 @@ def returns_to_breaks(tree, ref):
 _ORD_NEG = {ast.Lt: ast.GtE, ast.LtE: ast.Gt, ast.Gt: ast.LtE, ast.GtE: ast.Lt}
 
 
+def _negate_lengths(t):
+    """not t; an ordering test against a length is turned round instead (`not n >= len(x)` = `n < len(x)`: lengths are integers)"""
+    if isinstance(t, ast.Compare) and len(t.ops) == 1 and type(t.ops[0]) in _ORD_NEG and \
+            all(isinstance(x, (ast.Name, ast.Constant, ast.BinOp, ast.Call, ast.Load, ast.Sub, ast.Add, ast.Attribute)) for x in ast.walk(t.left)) and \
+            any(isinstance(x, ast.Call) and _txt(x.func) == 'len' for x in ast.walk(t)):
+        return ast.copy_location(ast.Compare(left=t.left, ops=[_ORD_NEG[type(t.ops[0])]()], comparators=t.comparators), t)
+    return _negate(t)
+
+
 def loop_guards_to_test(tree, ref):
     """`while True:` whose body begins with `if C1: break` / `if C2: break` (and which the reference writes with a real test) ->
     `while not C1 and not C2:` + the rest.  The guards are evaluated at the top of every iteration, in the same order, and a `break`
@@ -3405,7 +3524,9 @@ def loop_guards_to_test(tree, ref):
         if not ref_tests or all(t in ('True', '(True)') for t in ref_tests):
             continue
         for w in [x for x in _fn_walk(f) if isinstance(x, ast.While)]:
-            if w.orelse or not (isinstance(w.test, ast.Constant) and w.test.value is True):
+            always = isinstance(w.test, ast.Constant) and w.test.value is True
+            # (a loop that has a test already takes its guards as further conjuncts - unless the reference writes that very test)
+            if w.orelse or not (always or (_txt(w.test) not in ref_tests and '(%s)' % _txt(w.test) not in ref_tests)):
                 continue
             k = 0
             while k < len(w.body) and isinstance(w.body[k], ast.If) and not w.body[k].orelse and len(w.body[k].body) == 1 and isinstance(w.body[k].body[0], ast.Break):
@@ -3414,13 +3535,9 @@ def loop_guards_to_test(tree, ref):
                 continue
             tests = []
             for g_ in w.body[:k]:
-                t = g_.test
-                if isinstance(t, ast.Compare) and len(t.ops) == 1 and type(t.ops[0]) in _ORD_NEG and \
-                        all(isinstance(x, (ast.Name, ast.Constant, ast.BinOp, ast.Call, ast.Load, ast.Sub, ast.Add, ast.Attribute)) for x in ast.walk(t.left)) and \
-                        any(isinstance(x, ast.Call) and _txt(x.func) == 'len' for x in ast.walk(t)):
-                    tests.append(ast.copy_location(ast.Compare(left=t.left, ops=[_ORD_NEG[type(t.ops[0])]()], comparators=t.comparators), t))     # lengths are integers
-                else:
-                    tests.append(_negate(t))
+                tests.append(_negate_lengths(g_.test))
+            if not always:
+                tests = (list(w.test.values) if isinstance(w.test, ast.BoolOp) and isinstance(w.test.op, ast.And) else [w.test]) + tests
             w.test = ast.copy_location(tests[0] if len(tests) == 1 else ast.BoolOp(op=ast.And(), values=tests), w.test)
             w.body = w.body[k:]
             n += 1
@@ -3503,6 +3620,9 @@ def _literal(node, env):
                         ast.BitOr: lambda: a | b, ast.BitAnd: lambda: a & b, ast.FloorDiv: lambda: a // b, ast.Pow: lambda: a ** b}[type(node.op)]()
             except Exception:
                 pass
+        # tuple + tuple, str + str, bytes + bytes: concatenation of constants
+        if isinstance(node.op, ast.Add) and type(a) is type(b) and isinstance(a, (tuple, str, bytes)):
+            return a + b
     if isinstance(node, ast.Attribute) and env.get('__static__') and _root(node) is not None and _root(node)[:1].isupper() and all(
             isinstance(x, (ast.Attribute, ast.Name)) for x in ast.walk(node) if not isinstance(x, ast.expr_context)):
         return _Static(_txt(node))              # Class.CONSTANT / module.Class.CONSTANT inside a constant table
@@ -4384,6 +4504,104 @@ def _stmt_exprs(stmt):
     return [stmt]
 
 
+def inline_generator_loops(tree, ref):
+    """`for T in gen(args): BODY` where gen is a NEW module-level generator function with one statement-level `yield E` (no try / with /
+    return value / nested definitions) -> the generator's body in place, its `yield E` replaced by `T = E; BODY`.  The generator
+    starts running at the first iteration, right after its arguments were evaluated, and its code after the yield runs after BODY -
+    exactly the order of the in-place code.  BODY must not leave the loop on its own (no break / continue of this loop, no return):
+    those would end or resume the generator at another point."""
+    known = set(ref.get('funcs', []))
+    gens = {}
+    for st in tree.body:
+        if isinstance(st, ast.FunctionDef) and st.name not in known and not st.decorator_list:
+            ys = [n for n in ast.walk(st) if isinstance(n, (ast.Yield, ast.YieldFrom))]
+            if len(ys) != 1 or not isinstance(ys[0], ast.Yield) or ys[0].value is None:
+                continue
+            a = st.args
+            if a.vararg or a.kwarg or a.kwonlyargs or a.posonlyargs or a.defaults:
+                continue
+            if any(isinstance(n, (ast.Try, ast.With, ast.FunctionDef, ast.Lambda, ast.ClassDef, ast.Global, ast.Nonlocal, ast.Await)) for b_ in st.body for n in ast.walk(b_)) or \
+                    any(isinstance(n, ast.Return) and n.value is not None for n in ast.walk(st)) or any(isinstance(n, ast.Return) for n in ast.walk(st)):
+                continue
+            if not any(isinstance(n, ast.Expr) and n.value is ys[0] for n in ast.walk(st)):
+                continue
+            if sum(1 for n in ast.walk(tree) if isinstance(n, ast.Name) and n.id == st.name and isinstance(n.ctx, ast.Store)):
+                continue
+            gens[st.name] = st
+    if not gens:
+        return 0
+    total = 0
+    for q, fn in functions(tree):
+        if fn.name in gens:
+            continue
+        for _ in range(4):
+            changed = False
+            for block in _blocks(fn):
+                for i, st in enumerate(block):
+                    if not (isinstance(st, ast.For) and not st.orelse and isinstance(st.iter, ast.Call) and isinstance(st.iter.func, ast.Name) and st.iter.func.id in gens and
+                            not st.iter.keywords and not any(isinstance(x, ast.Starred) for x in st.iter.args)):
+                        continue
+                    g = gens[st.iter.func.id]
+                    if len(st.iter.args) != len(g.args.args):
+                        continue
+
+                    def leaves(stmts, in_loop):
+                        for s_ in stmts:
+                            if isinstance(s_, (ast.Return, ast.Yield, ast.YieldFrom)) or (not in_loop and isinstance(s_, (ast.Break, ast.Continue))):
+                                return True
+                            if isinstance(s_, (ast.FunctionDef, ast.ClassDef)):
+                                continue
+                            for f_ in ('body', 'orelse', 'finalbody'):
+                                if leaves(getattr(s_, f_, None) or [], in_loop or (isinstance(s_, (ast.For, ast.While)) and f_ == 'body')):
+                                    return True
+                            for h_ in getattr(s_, 'handlers', None) or []:
+                                if leaves(h_.body, in_loop):
+                                    return True
+                        return False
+                    if leaves(st.body, False) or any(isinstance(n, (ast.Yield, ast.YieldFrom)) for b_ in st.body for n in ast.walk(b_)):
+                        continue
+                    # names of the generator (parameters and locals) that clash with names of the caller get a suffix
+                    gl = [a_.arg for a_ in g.args.args] + [n for n in _stores(g)]
+                    cn = {n.id for n in ast.walk(fn) if isinstance(n, ast.Name)} | {a_.arg for a_ in fn.args.args + fn.args.kwonlyargs}
+                    ren = {n: (n + '__' + g.name.strip('_') if n in cn else n) for n in gl}
+                    body = [_RenameNames(ren).visit(copy.deepcopy(s_)) for s_ in g.body if not _has_doc([s_])]
+                    lead = [ast.copy_location(ast.Assign(targets=[ast.Name(id=ren[p_.arg], ctx=ast.Store())], value=a_, lineno=st.lineno), st) for p_, a_ in zip(g.args.args, st.iter.args)]
+
+                    def splice(stmts):
+                        out = []
+                        for s_ in stmts:
+                            if isinstance(s_, ast.Expr) and isinstance(s_.value, ast.Yield):
+                                out.append(ast.copy_location(ast.Assign(targets=[st.target], value=s_.value.value, lineno=st.lineno), st))
+                                out.extend(st.body)
+                                continue
+                            for f_ in ('body', 'orelse', 'finalbody'):
+                                if isinstance(getattr(s_, f_, None), list):
+                                    setattr(s_, f_, splice(getattr(s_, f_)))
+                            out.append(s_)
+                        return out
+                    block[i:i + 1] = lead + splice(body)
+                    total += 1
+                    changed = True
+                    break
+                if changed:
+                    break
+            if not changed:
+                break
+    if total:
+        ast.fix_missing_locations(tree)
+    return total
+
+
+class _RenameNames(ast.NodeTransformer):
+    def __init__(self, m):
+        self.m = m
+
+    def visit_Name(self, n):
+        if n.id in self.m and self.m[n.id] != n.id:
+            return ast.copy_location(ast.Name(id=self.m[n.id], ctx=n.ctx), n)
+        return n
+
+
 def inline_helpers(tree, ref):
     known = set(ref.get('funcs', []))
     total = 0
@@ -4762,6 +4980,26 @@ def _stable_chain(e, unstable, fn=None, tree=None, stmt=None):
     return True
 
 
+_REF_STMTS = []
+
+
+def _method_aliases(fn, path, q, unknown, stores):
+    if _CUR_MODEL[0] is None:
+        return []
+    if not _REF_STMTS:
+        from . import recognise
+        _REF_STMTS.append(recognise.reference())
+    have = set(_REF_STMTS[0].get(path, {}).get(q, []))
+    sigs = _package_signatures(_CUR_MODEL[0])
+    out = []
+    for st in _fn_walk(fn):
+        if isinstance(st, ast.Assign) and len(st.targets) == 1 and isinstance(st.targets[0], ast.Name) and st.targets[0].id in unknown and \
+                stores.get(st.targets[0].id) == 1 and isinstance(st.value, ast.Attribute) and isinstance(st.value.value, ast.Name) and \
+                ('.' + st.value.attr) in sigs and ('_ = _.%s' % st.value.attr) not in have:
+            out.append(st.targets[0].id)
+    return out
+
+
 def inline_temps(tree, path, ref_locals):
     unstable = _unstable_attrs(_CUR_MODEL[0], tree)
     total = 0
@@ -4780,9 +5018,14 @@ def inline_temps(tree, path, ref_locals):
                        any(isinstance(t, ast.Name) and t.id in unknown for t in st.targets[0].elts) for st in block):
                     block[:] = _untuple(block)
             missing = [w for w in want if w not in have]
-            if len(unknown) <= len(missing):
-                break               # plain renames are the business of the alpha pass
             stores = _stores(fn)
+            # a new name for a bound method (`m = obj.method`, method of the package, a binding the reference function does not have) is
+            # never a rename of a reference local: it goes first, and it goes even when the head count says "renames only"
+            forced = _method_aliases(fn, path, q, unknown, stores)
+            if len(unknown) <= len(missing) and not forced:
+                break               # plain renames are the business of the alpha pass
+            if forced:
+                unknown = forced + ([h for h in unknown if h not in forced] if len(unknown) > len(missing) else [])
             progressed = False
             # `v = E; self.a = v; .. v ..`  (v new, bound once)  ->  `self.a = E; .. self.a ..`  when nothing in between re-binds self.a
             for name in unknown:
@@ -5105,6 +5348,12 @@ def unroll_loops(tree, ref):
                         if vals is not None:
                             v = n.generators[0].target.id
                             return ast.copy_location(ast.List(elts=[_Subst({v: ast.Constant(value=k)}).visit(copy.deepcopy(n.elt)) for k in vals], ctx=ast.Load()), n)
+                        it = n.generators[0].iter
+                        # [E(v) for v in (a, b, c)] over a literal row of plain names / constants -> [E(a), E(b), E(c)]
+                        if isinstance(it, (ast.Tuple, ast.List)) and 1 <= len(it.elts) <= 8 and all(isinstance(e, (ast.Constant, ast.Name)) for e in it.elts) and \
+                                not any(isinstance(x, (ast.NamedExpr, ast.Lambda, ast.ListComp, ast.GeneratorExp, ast.DictComp, ast.SetComp)) for x in ast.walk(n.elt)):
+                            v = n.generators[0].target.id
+                            return ast.copy_location(ast.List(elts=[_Subst({v: copy.deepcopy(e)}).visit(copy.deepcopy(n.elt)) for e in it.elts], ctx=ast.Load()), n)
                     return n
             before = len(comps)
             fn.body = [U().visit(s_) for s_ in fn.body]
@@ -5430,13 +5679,13 @@ def normalise(tree, path, ref_locals, model=None):
     for name, fn in (('moved', lambda: pull_back_moved(tree, ref, path, model) + drop_moved_away(tree, ref, path, model)), ('match', lambda: lower_match(tree, ref)), ('walrus', lambda: expand_walrus(tree, ref)), ('eafp', lambda: undo_eafp_probes(tree, ref)), ('getnone', lambda: undo_get_none_tests(tree, ref, ref_locals)), ('iadd', lambda: extend_as_iadd(tree, ref)), ('enums', lambda: dissolve_enums(tree, ref)), ('namedtuples', lambda: dissolve_namedtuples(tree, ref, path, model)), ('regroup', lambda: regroup_indexed_reads(tree, ref, ref_locals)), ('dataclasses', lambda: undo_dataclasses(tree, ref)), ('dispatch', lambda: undo_dispatch_tables(tree, ref)),
                      ('annotations', lambda: strip_annotations(tree, ref)), ('imports', lambda: normalise_imports(tree, ref)), ('attributes', lambda: rename_attributes(tree, ref)),
                      ('methods', lambda: rename_methods(tree, ref)), ('formats', lambda: restyle_formats(tree, ref)), ('spelling', lambda: respell(tree, ref) + respell_len_tests(tree, ref)), ('closures', lambda: restore_closures(tree, ref) + restore_closures_from_objects(tree, ref) + unname_lambdas(tree, ref)), ('self', lambda: restore_self(tree, ref)), ('tuples', lambda: split_tuple_bindings(tree, ref)), ('suppress', lambda: expand_suppress(tree, ref)), ('constants', lambda: _constants(tree, ref)),
-                     ('boolindex', lambda: undo_bool_indexing(tree, ref)), ('observability', lambda: drop_observability(tree, ref)), ('params', lambda: default_new_params(tree, ref) + default_new_params(tree, ref)), ('kwargs', lambda: positionalise_keywords(tree, ref, model)), ('initliterals', lambda: inline_init_literals(tree, ref)),
+                     ('formats2', lambda: fold_nested_formats(tree, ref)), ('boolindex', lambda: undo_bool_indexing(tree, ref)), ('observability', lambda: drop_observability(tree, ref)), ('params', lambda: default_new_params(tree, ref) + default_new_params(tree, ref)), ('kwargs', lambda: positionalise_keywords(tree, ref, model)), ('initliterals', lambda: inline_init_literals(tree, ref)),
                      ('structs', lambda: inline_struct_objects(tree, ref)),
-                     ('anytests', lambda: lower_any_tests(tree, ref)), ('itertools', lambda: undo_iteration_tools(tree, ref) + undo_iteration_tools(tree, ref)), ('continues', lambda: nest_early_continues(tree, ref) + loop_guards_to_test(tree, ref)), ('loops', lambda: reshape_loops(tree, ref, ref_locals)), ('predicates', lambda: fold_predicate_helpers(tree, ref) + fold_guard_flags(tree, ref, ref_locals) + returns_to_breaks(tree, ref)), ('helpers', lambda: inline_helpers(tree, ref)), ('namedtuples2', lambda: dissolve_namedtuples(tree, ref, path, model)), ('records', lambda: scalarise_records(tree, ref)), ('tuplevars', lambda: scalarise_tuple_locals(tree, ref, ref_locals)), ('elsedefaults', lambda: hoist_else_defaults(tree, ref)), ('ifexps0', lambda: expand_ifexps(tree, ref)), ('flagtails', lambda: sink_flag_tails(tree, ref, ref_locals)), ('decided', lambda: fold_decided_branches(tree, ref)), ('trivia', lambda: drop_trivia(tree, ref)), ('ifexps', lambda: expand_ifexps(tree, ref)), ('boolreturns', lambda: expand_bool_returns(tree, ref)),
+                     ('anytests', lambda: lower_any_tests(tree, ref)), ('itertools', lambda: undo_iteration_tools(tree, ref) + undo_iteration_tools(tree, ref)), ('continues', lambda: nest_early_continues(tree, ref) + loop_guards_to_test(tree, ref)), ('loops', lambda: reshape_loops(tree, ref, ref_locals)), ('predicates', lambda: fold_predicate_helpers(tree, ref) + fold_guard_flags(tree, ref, ref_locals) + returns_to_breaks(tree, ref)), ('helpers', lambda: inline_generator_loops(tree, ref) + inline_helpers(tree, ref)), ('namedtuples2', lambda: dissolve_namedtuples(tree, ref, path, model)), ('records', lambda: scalarise_records(tree, ref)), ('tuplevars', lambda: scalarise_tuple_locals(tree, ref, ref_locals)), ('elsedefaults', lambda: hoist_else_defaults(tree, ref)), ('ifexps0', lambda: expand_ifexps(tree, ref)), ('flagtails', lambda: sink_flag_tails(tree, ref, ref_locals)), ('decided', lambda: fold_decided_branches(tree, ref)), ('trivia', lambda: merge_common_tails(tree, ref, ref_locals) + drop_trivia(tree, ref)), ('ifexps', lambda: expand_ifexps(tree, ref)), ('boolreturns', lambda: expand_bool_returns(tree, ref)),
                      ('unrolled', lambda: unroll_loops(tree, ref)), ('builtlists', lambda: scalarise_built_lists(tree, ref, ref_locals)),
                      ('comprehensions', lambda: expand_comprehensions(tree, ref) + collapse_append_loops(tree, ref)), ('ifexps2', lambda: expand_ifexps(tree, ref)),
                      ('ranges', lambda: split_live_ranges(tree, ref_locals or {})), ('temps', lambda: inline_temps(tree, path, ref_locals or {})), ('loopguards', lambda: loop_guards_to_test(tree, ref)),
-                     ('decided2', lambda: _settle(tree, ref, path, ref_locals or {}))):
+                     ('decided2', lambda: _settle(tree, ref, path, ref_locals or {})), ('tails', lambda: merge_common_tails(tree, ref, ref_locals) + drop_trivia(tree, ref))):
         try:
             k = fn()
         except RecursionError:
